@@ -157,8 +157,11 @@ def solve_lp(
         linprog_kwargs["A_eq"] = lp_data.A_eq
         linprog_kwargs["b_eq"] = lp_data.b_eq
 
-    if lp_data.bounds:
-        linprog_kwargs["bounds"] = lp_data.bounds
+    # Bounds are read on every solve (not from the cached LPData):
+    # Variable.lb / ub may change between solves
+    bounds = LinearProgramExtractor().extract_bounds(variables)
+    if bounds:
+        linprog_kwargs["bounds"] = bounds
 
     # Merge user kwargs (allow overriding)
     linprog_kwargs.update(kwargs)
